@@ -66,6 +66,15 @@ CLAIMED["C11"] = dict(
    note="Positions are enumerated exhaustively per (configuration, entry point); configurations are seeded samples. WrappedWrite::send is outside the quantifier.",
    technique="deterministic simulation: exhaustive enumeration of device drop-out / unanswered-datagram positions and counter tampering per operation on the segment reference model", section="DESIGN.md §4 C11")
 
+CLAIMED["C15"] = dict(
+   text="A simulated CoE server (object dictionary, expedited/normal/segmented upload with drawn segment sizes and the <7 byte padding rule, expedited download, complete access, aborts, emergencies, foreign-object replies) behind mailbox sync managers of drawn sizes 16..1024; 2..7 operations per run: reads of objects of 0..520 bytes into exactly fitting and roomy destinations under every upload mode (initiate response with and without a first fragment, optional stale out-mailbox content), writes, array helpers, abort codes, emergency, foreign object, object larger than destination; oracle: returned bytes == object bytes, dictionary after writes, sub-index order of array helpers, exact error variants and payloads, mailbox counter cycling 1..7.",
+   note="Segment responses use command specifier 0 as ETG.1000.6/CiA 301 prescribe; writes above four bytes are documented as unsupported and not generated.",
+   technique="deterministic simulation: real CoE client against an executable CoE server reference model with seeded policies/sizes and device-side fault injection (sdo_abort, mbx_emergency, mbx_stale)", section="DESIGN.md §4 C15")
+CLAIMED["C16"] = dict(
+   text="Every SDO / SDO-information entry point is run while the next 1..3 mailbox replies of the simulated device are mutated: random bytes, each header field byte set to a drawn value, mailbox length 0..0xffff, truncation, bit flips, emergency service, every command specifier, and devices that announce more segments/fragments forever (with and without data); under catch_unwind with a step budget, in a release build and in a build with overflow checks and debug assertions.",
+   note="'Never reads outside the response' is covered through the view clauses of C01 (trim_front/len) and Rust's bounds checks (an out-of-range index is a panic, which this check reports); no canary instrumentation is used.",
+   technique="deterministic simulation with device-side fault injection (mbx_garbage, endless fragments) under two arithmetic profiles; panic/step monitors", section="DESIGN.md §4 C16")
+
 NA = {
  "C19": "pure function of its input (a proc-macro and the code it generates): no schedule, clock, fault, I/O or second party for a simulator to control; input generation alone is not simulation (DESIGN.md §4 C19)",
 }
